@@ -217,6 +217,28 @@ func init() {
 
 		// time
 		"time.Sleep": extYield,
+		"time.NewTicker": func(fr *frame, a []value) value {
+			// a ticker that never fires inside the engine (time does not pass by itself)
+			cell := zero(fr.i.namedType("time", "Ticker"))
+			cell.(structure)[0] = &schan{cap: 1, elem: fr.i.namedType("time", "Time")}
+			return &cell
+		},
+		"(*time.Ticker).Stop":  noop,
+		"(*time.Ticker).Reset": noop,
+		"time.NewTimer": func(fr *frame, a []value) value {
+			cell := zero(fr.i.namedType("time", "Timer"))
+			cell.(structure)[0] = &schan{cap: 1, elem: fr.i.namedType("time", "Time")}
+			return &cell
+		},
+		"(*time.Timer).Stop":  func(fr *frame, a []value) value { return true },
+		"(*time.Timer).Reset": func(fr *frame, a []value) value { return true },
+		"time.After": func(fr *frame, a []value) value {
+			return &schan{cap: 1, elem: fr.i.namedType("time", "Time")}
+		},
+		"time.AfterFunc": func(fr *frame, a []value) value {
+			cell := zero(fr.i.namedType("time", "Timer"))
+			return &cell
+		},
 		"time.now":   extTimeNow,
 		"time.runtimeNano": func(fr *frame, a []value) value { return int64(0) },
 
@@ -242,6 +264,14 @@ func (i *interpreter) resolveExternal(fn *ssa.Function) externalFn {
 		return nil
 	}
 	name := fn.String()
+	if i.ex != nil {
+		if m := i.ex.models[name]; m != nil {
+			i.noteIntercept(name + " -> " + m.String())
+			return func(fr *frame, args []value) value {
+				return callSSA(fr.i, fr.caller, 0, m, args, nil)
+			}
+		}
+	}
 	if ext := externals[name]; ext != nil {
 		i.noteIntercept(name)
 		return ext
